@@ -58,8 +58,14 @@ def gen(rng, n):
             out.append(S.gen_inherit_case(rng, "C12"))
         elif g < 0.85:
             out.append(S.gen_chain_contended_case(rng, "C12"))
-        elif g < 0.93:
+        elif g < 0.90:
             out.append(S.gen_reuse_case(rng))
+        elif g < 0.93:
+            out.append(S.gen_between_owners_case(rng))
+        elif g < 0.96:
+            out.append(S.gen_chain_giveup_case(rng))
+        elif g < 0.985:
+            out.append(S.gen_two_episodes_case(rng))
         else:
             out.append(S.gen_chain_case(rng))
     return out
